@@ -664,6 +664,19 @@ func checkSet(rs *ruleSet, nProbes int, extra []string, dir string, st *stats, w
 	dagFindings := checkDAG(rs, b, nProbes, extra, st)
 	if len(findings) == 0 {
 		findings = dagFindings
+	} else {
+		// same principle for the whole rule set: keep the findings of the most basic route
+		lvl := 99
+		for _, f := range findings {
+			lvl = min(lvl, routeLevel(f.Case["target"].(string)))
+		}
+		kept := findings[:0]
+		for _, f := range findings {
+			if routeLevel(f.Case["target"].(string)) == lvl {
+				kept = append(kept, f)
+			}
+		}
+		findings = kept
 	}
 	var sample any
 	if wantSample {
@@ -706,7 +719,7 @@ func mismatchKey(ref *refSet, route, name string, exp refOut, v int, got bool) s
 		}
 		return route + "-false-positive-" + nm
 	case exp.Match && got && v != -1 && !exp.allows(v):
-		return route + "-wrong-value-want-" + exp.Winner + "-got-" + gotType(ref, name, v)
+		return route + "-wrong-value-want-" + exp.Winner + "-got-" + strings.TrimSuffix(gotType(ref, name, v), "(not-describing)")
 	}
 	return ""
 }
@@ -765,7 +778,7 @@ func targetNames(ts []target) []string {
 
 func main() {
 	rep = evid.New("C12", "exploration")
-	rep.SetRule("case = (rule set, probe name, route); rule sets: 1-10 (sometimes up to 41) rules of the four types over the label alphabet {a b ab ba a-b xn--a com c}, derived from 1-3 pool names (itself, suffixes, +label, glued/unglued first char), random case, optional trailing dot, duplicates with other values, random default type and prefix omission; regexps from a small RE2-safe grammar; probe names = every rule +/- one label, +/- one char, one char replaced, in random case with/without trailing dot, plus random names; routes = MixMatcher.Add, its sub-matchers, standalone sub-matchers, text loader with/without values, domain_set plugin (exps+file+nested set), hosts Lookup, hosts plugin LookupMsg, redirect plugin, and per rule set one random DAG of 3-11 domain_set plugins (own exps/files or sets only, 1-8 included sets, shared included sets) built in dependency order and probed only after all are built, each against the union of its own and transitively included rules. non-trivial = at least one rule describes the name or the name is a near miss (non-boundary suffix, parent of a rule, subdomain of a full rule, rule is a prefix); distinct = (rule set, set of matching types, deciding type, number of matching domain depths, near-miss class)")
+	rep.SetRule("case = (rule set, probe name, route); rule sets: 1-10 (sometimes up to 41) rules of the four types over the label alphabet {a b ab ba a-b xn--a com c}, derived from 1-3 pool names (itself, suffixes, +label, glued/unglued first char), random case, optional trailing dot, duplicates with other values, random default type and prefix omission; regexps from a small RE2-safe grammar; probe names = every rule +/- one label, +/- one char, one char replaced, in random case with/without trailing dot, plus random names; routes = MixMatcher.Add, its sub-matchers, standalone sub-matchers, text loader with/without values, domain_set plugin (exps+file+nested set), hosts Lookup, hosts plugin LookupMsg, redirect plugin, and per rule set one random DAG of 3-11 domain_set plugins (own exps/files or sets only, 1-8 included sets, shared included sets) built in dependency order and probed only after all are built, each against the union of its own and transitively included rules. non-trivial = at least one rule describes the name or the name is a near miss (non-boundary suffix, parent of a rule, subdomain of a full rule, rule is a prefix); distinct = (rule set, set of matching types, deciding type, number of matching domain depths, near-miss class), plus (topology, plugin) for every plugin that includes other sets")
 	rep.Assume("Go's regexp package is the definition of 'match by Go regular expression' (used by the reference, on the normalised name, with the expression exactly as written)")
 	rep.Assume("generated rules and names are ASCII; lower-casing in the reference is ASCII lower-casing")
 	rep.Assume("empty patterns ('domain:.', 'keyword:.') and names with empty labels are outside the quantified space and not generated; unprefixed rules never contain ':'")
@@ -805,7 +818,7 @@ func main() {
 		rep.Finish()
 	}
 
-	nSets := rep.Pick(16000, 700000)
+	nSets := rep.Pick(16000, 600000)
 	nProbes := rep.Pick(150, 200)
 	master := rand.New(rand.NewSource(rep.Seed))
 	seeds := make([]int64, nSets)
